@@ -2,6 +2,7 @@
   C10 — Honest peers negotiate by the policy table and agree on the result.
 -/
 import CedarProofs.HandshakeLemmas
+import CedarProofs.LoopComplete
 
 namespace Cedar.C10
 open Cedar Cedar.HS
@@ -183,5 +184,53 @@ def sOpt : ServerCfg := { auth := lvlOptional, enc := lvlOptional, integ := lvlO
 example : (honestRun cReq sOpt (fun m => m == "CLAIMTOBE") "u" "sid").client.isOk = true := by decide
 example : (honestRun { cReq with methods := ["PASSWORD"], auth := lvlPreferred } sOpt (fun _ => false) "u" "sid").client.isOk = true := by decide
 example : (honestRun { cReq with methods := ["PASSWORD"] } sOpt (fun _ => false) "u" "sid").denied = true := by decide
+
+/-! ### Completeness of the authentication retry loop -/
+
+/-- **retry_loop_complete**: the bitmask retry loop of two honest endpoints (client offers the
+    remaining mask, server answers with the first of its methods in it, both run it, a failed method
+    is removed from the mask) ends in success with a method that works, WHENEVER some offered method
+    works with the two parties' credentials — for every server order, every client order and any
+    number of failing methods tried first. Hypothesis `BitSys`: the methods in play have distinct
+    single-bit mask values (true of every implemented method except that SCITOKENS and IDTOKENS
+    share one bit: lists that contain both are outside this theorem and are covered by the matrix
+    engine). -/
+theorem retry_loop_complete (own offered : List String) (credOK : String → Bool)
+    (hs : BitSys own offered) (hgood : ∃ g, g ∈ offered ∧ credOK g = true) :
+    ∃ m ran, jointLoop offered own credOK (offered.length + 1) (bitmaskOf offered) [] = .success m ran ∧
+      credOK m = true ∧ m ∈ offered ∧ m ∈ own :=  by
+  obtain ⟨m, ran, h, hc⟩ := jointLoop_complete' hs hgood
+  obtain ⟨h1, h2, _, _⟩ := jointLoop_success _ _ _ _ _ h
+  exact ⟨m, ran, h, hc, h1, h2⟩
+
+/-- the same at the level of the whole authentication phase of two honest endpoints -/
+theorem honest_auth_complete (c : ClientCfg) (s : ServerCfg) (d : Decision) (credOK : String → Bool)
+    (hd : d.authentication = true)
+    (hs : BitSys s.methods (c.methods.filter (fun m => s.methods.contains m && (!isTokenMethod m || c.tokenCompat))))
+    (hgood : ∃ g, g ∈ c.methods.filter (fun m => s.methods.contains m && (!isTokenMethod m || c.tokenCompat)) ∧ credOK g = true) :
+    ∃ m ran, honestAuthPhase c s d credOK = .ok (true, m, ran) ∧ credOK m = true := by
+  obtain ⟨m, ran, h, hc, _, _⟩ := retry_loop_complete _ _ credOK hs hgood
+  obtain ⟨g, hg, _⟩ := hgood
+  have hne : c.methods.filter (fun m => s.methods.contains m && (!isTokenMethod m || c.tokenCompat)) ≠ [] := by
+    intro h0; rw [h0] at hg; cases hg
+  have hsne : s.methods ≠ [] := by
+    intro h0
+    have := hs.sub g hg
+    rw [h0] at this; cases this
+  refine ⟨m, ran, ?_, hc⟩
+  unfold honestAuthPhase
+  simp only [hd, Bool.not_true, Bool.false_eq_true, if_false, hsne, hne]
+  rw [h]
+
+/-- non-vacuity: the hypothesis holds for the implemented methods (one of the two token spellings) -/
+example : BitSys ["FS", "TOKEN", "KERBEROS", "SCITOKENS", "SSL", "CLAIMTOBE", "PASSWORD"] ["SSL", "PASSWORD", "FS", "CLAIMTOBE"] :=
+  bitSys_of_check (by decide)
+/-- and fails, as it must, when both spellings of the shared bit are listed -/
+example : bitSysCheck ["SCITOKENS", "IDTOKENS"] ["SCITOKENS"] = false := by decide
+/-- a run: the server prefers FS and KERBEROS, which fail between these two parties; SSL works -/
+example : (match jointLoop ["SSL", "FS", "KERBEROS"] ["FS", "KERBEROS", "SSL"] (fun m => m == "SSL") 4
+      (bitmaskOf ["SSL", "FS", "KERBEROS"]) [] with
+    | .success m ran => (m, ran)
+    | _ => ("", [])) = ("SSL", [("FS", false), ("KERBEROS", false), ("SSL", true)]) := by decide
 
 end Cedar.C10
